@@ -77,6 +77,26 @@ func checkC10Bind(c *Ctx, n int) {
 		}
 		cs.Opts |= flags.PassDoubleDash
 		cs.Build = append(cs.Build, BuildOp{Kind: "setcmd", Target: 1, Attr: "subopt", Vals: []string{"1"}})
+		// string options whose argument is optional, with and without an optional-value
+		var mkOptional func(sd *StructDesc)
+		mkOptional = func(sd *StructDesc) {
+			for fi := range sd.Fields {
+				f := &sd.Fields[fi]
+				if f.Kind == "v" && f.Ty == "str" && strings.Contains(f.Tag, "long:") && !strings.Contains(f.Tag, "optional") && !strings.Contains(f.Tag, "choice:") && r.Intn(3) == 0 {
+					f.Tag += ` optional:"yes"`
+					if r.Intn(2) == 0 {
+						f.Tag += ` optional-value:"ov"`
+					}
+				} else if f.Sub != nil && !strings.Contains(f.Tag, "positional-args") {
+					mkOptional(f.Sub)
+				}
+			}
+		}
+		for bi := range cs.Build {
+			if cs.Build[bi].Struct != nil {
+				mkOptional(cs.Build[bi].Struct)
+			}
+		}
 		// PassAfterNonOption: from the first word on nothing is an option (nor the terminator) any more
 		after := r.Intn(4) == 0
 		cs.Opts &^= flags.PassAfterNonOption
@@ -132,12 +152,25 @@ func checkC10Bind(c *Ctx, n int) {
 				}
 			}
 		}
+		longCount := map[string]int{}
+		for _, cmd := range chain {
+			for _, grp := range allGroups(cmd) {
+				for _, o := range grp.Options() {
+					longCount[o.LongNameWithNamespace()]++
+				}
+			}
+		}
 		for _, cmd := range chain {
 			for _, grp := range allGroups(cmd) {
 				for _, o := range grp.Options() {
 					sp := "-" + string(o.ShortName)
 					if o.ShortName != 0 && count[sp] == 1 && real.optCode(o) == "bool" && o.Field().Name != "ShowHelp" {
 						flagsInScope = append(flagsInScope, sp)
+					}
+					// an option whose argument is optional never takes the next word either
+					ln := o.LongNameWithNamespace()
+					if o.OptionalArgument && ln != "" && longCount[ln] == 1 && !strings.ContainsAny(ln, "=%") && !strings.HasPrefix(ln, "-") && len(o.Choices) == 0 && (real.optCode(o) == "str" || real.optCode(o) == "Lstr") {
+						flagsInScope = append(flagsInScope, "--"+ln)
 					}
 				}
 			}
